@@ -23,11 +23,17 @@
       CompressAndFrame but refused by Decompress).
     * TL2: `tl2_size_roundtrip` (the size codec that frames every TL2 string/object/vector/dictionary, all three forms,
       every n ≤ MaxInt), `tl2_size_length`, `tl2_string_roundtrip`; tied to basictl2.go at every form boundary.
-  Partial: the generated TL2 object codecs and JSON are not modelled (Go-side round-trip oracle for every type only); the "bytes and string
+    * TL2 of the generated types: `tl2_roundtrip` — a second generic codec over the SAME descriptors and values
+      (SH.Model.TL2: size-prefixed objects, presence-bit blocks with trimming, omitted defaults, conditional fields,
+      enums, vectors, dictionaries), one theorem by the mutual recursor like `tl1_roundtrip`; `tl2_field_roundtrip`,
+      `tl2_absent_is_default`; `schema_tl2_supported` (by evaluation: every type with generated TL2 code lies in the
+      modelled fragment) and `schema_tl2_roundtrip` (the instance for each of them).
+  Partial: JSON is not modelled (Go-side round-trip oracle for every type only: number and string *text* formatting); the "bytes and string
   variants encode identically" clause is a fact about two copies of generated Go code — in the model both are the one
   `Desc.str`, so it is checked by the Go oracle, not stated as a theorem.
 -/
 import SH.Lemmas.TL
+import SH.Lemmas.TL2
 import SH.Gen.C14
 
 namespace SH.C14
@@ -275,61 +281,16 @@ example : dec .str [] [2, 1, 2, 1] = none := by decide                       -- 
   Every TL2 string, object, vector and dictionary is framed by `TL2WriteSize`; the three forms switch at 254 and
   254 + 2^16. The generated TL2 object codecs themselves stay oracle-only. -/
 
-theorem tl2Tiny_iff (l : Nat) : tl2Tiny l = true ↔ l < 254 := by
-  unfold tl2Tiny mediumStringMarker; exact decide_eq_true_iff
-theorem tl2Medium_iff (l : Nat) : tl2Medium l = true ↔ l < 65790 := by
-  unfold tl2Medium mediumStringMarker; exact decide_eq_true_iff
-
 /-- TL2ParseSize (TL2WriteSize n ++ rest) = (n, rest) for every size an `int` can hold -/
 theorem tl2_size_roundtrip (n : Nat) (hn : n ≤ maxInt) (r : Bytes) :
-    tl2ParseSize (tl2WriteSize n ++ r) = some (n, r) := by
-  unfold maxInt at hn
-  by_cases h1 : tl2Tiny n = true
-  · have h1' : n < 254 := (tl2Tiny_iff n).1 h1
-    have hh : tl2WriteSize n = [UInt8.ofNat n] := by simp [tl2WriteSize, h1]
-    have e : (UInt8.ofNat n).toNat = n := by rw [UInt8.toNat_ofNat']; omega
-    rw [hh]
-    simp only [List.cons_append, List.nil_append, tl2ParseSize, e, mediumStringMarker, h1', if_true]
-  · have h1' : ¬ n < 254 := fun x => h1 ((tl2Tiny_iff n).2 x)
-    by_cases h2 : tl2Medium n = true
-    · have h2' : n < 65790 := (tl2Medium_iff n).1 h2
-      have hh : tl2WriteSize n = [254, UInt8.ofNat ((n - 254) % 256), UInt8.ofNat ((n - 254) / 256 % 256)] := by
-        simp [tl2WriteSize, h1, h2]
-      have e : 254 + ((UInt8.ofNat ((n - 254) % 256)).toNat + (UInt8.ofNat ((n - 254) / 256 % 256)).toNat * 256) = n := by
-        simp only [UInt8.toNat_ofNat']; omega
-      have c1 : ¬ (254 : UInt8).toNat < 254 := by decide
-      have c2 : (254 : UInt8).toNat = 254 := by decide
-      rw [hh]
-      simp only [List.cons_append, List.nil_append, tl2ParseSize, mediumStringMarker, c2, if_true, e]
-      simp
-    · have h2' : ¬ n < 65790 := fun x => h2 ((tl2Medium_iff n).2 x)
-      have hh : tl2WriteSize n = 255 :: le64 n := by simp [tl2WriteSize, h1, h2]
-      have e : (UInt8.ofNat (n % 256)).toNat + (UInt8.ofNat (n / 256 % 256)).toNat * 256
-            + (UInt8.ofNat (n / 65536 % 256)).toNat * 65536 + (UInt8.ofNat (n / 16777216 % 256)).toNat * 16777216
-            + (UInt8.ofNat (n / 4294967296 % 256)).toNat * 4294967296
-            + (UInt8.ofNat (n / 1099511627776 % 256)).toNat * 1099511627776
-            + (UInt8.ofNat (n / 281474976710656 % 256)).toNat * 281474976710656
-            + (UInt8.ofNat (n / 72057594037927936 % 256)).toNat * 72057594037927936 = n := by
-        simp only [UInt8.toNat_ofNat']; omega
-      have c1 : ¬ (255 : UInt8).toNat < 254 := by decide
-      have c2 : ¬ (255 : UInt8).toNat = 254 := by decide
-      have c3 : ¬ n > 9223372036854775807 := by omega
-      rw [hh]
-      simp only [le64, List.cons_append, List.nil_append, tl2ParseSize, mediumStringMarker, maxInt, c1, c2, if_false, e, c3]
+    tl2ParseSize (tl2WriteSize n ++ r) = some (n, r) := tl2_size_rt n hn r
 
 /-- TL2CalculateSize is the number of bytes TL2WriteSize / TL2PutSize produce -/
-theorem tl2_size_length (n : Nat) : (tl2WriteSize n).length = tl2CalculateSize n := by
-  unfold tl2WriteSize tl2CalculateSize
-  by_cases h1 : tl2Tiny n = true
-  · simp [h1]
-  · by_cases h2 : tl2Medium n = true <;> simp [h1, h2, le64]
+theorem tl2_size_length (n : Nat) : (tl2WriteSize n).length = tl2CalculateSize n := tl2_size_len n
 
 /-- StringReadTL2 (StringWriteTL2 b ++ rest) = (b, rest) -/
 theorem tl2_string_roundtrip (b r : Bytes) (hn : b.length ≤ maxInt) :
-    tl2ReadStr (tl2WriteStr b ++ r) = some (b, r) := by
-  unfold tl2ReadStr tl2WriteStr
-  rw [List.append_assoc, tl2_size_roundtrip _ hn]
-  exact takeN_append b r
+    tl2ReadStr (tl2WriteStr b ++ r) = some (b, r) := tl2_string_rt b r hn
 
 example : tl2WriteSize 65789 = [254, 255, 255] := by decide
 example : tl2WriteSize 65790 = [255, 254, 0, 1, 0, 0, 0, 0, 0] := by decide
@@ -337,6 +298,64 @@ example : tl2ParseSize [254, 0, 0, 7] = some (254, [7]) := by decide
 example : tl2ParseSize [255, 3, 0, 0, 0, 0, 0, 0, 0] = some (3, []) := by decide          -- non-canonical huge form accepted
 example : tl2ParseSize [255, 0, 0, 0, 0, 0, 0, 0, 128] = none := by decide                -- > MaxInt
 example : tl2ParseSize [254, 1] = none := by decide
+
+/-! ### TL2 of the generated types (SH.Model.TL2): a second codec over the same descriptors and values
+
+  `wt2` (SH.Lemmas.TL2) = the values of the modelled fragment: `#`/int/long, strings, Bool, enums, objects with plain and
+  conditional fields, vectors and dictionaries, every body short enough for its size prefix. -/
+
+/-- **TL2 round trip, every descriptor of the fragment**: reading what WriteTL2 wrote (top level, vector element or
+    payload of a conditional field — always written in full) yields the value and leaves the trailing bytes alone. -/
+theorem tl2_roundtrip (d : Desc) (v : Val) (rest : Bytes) (hs : tl2Supported d = true) (hb : headIsBool d = false)
+    (hv : wt2 d v = true) : decE d (encE d v ++ rest) = some (v, rest) :=
+  (rt2_all d hs).elem v rest hv hb
+
+/-- a plain field that is written (non-empty bytes) reads back as the value … -/
+theorem tl2_field_roundtrip (d : Desc) (v : Val) (rest : Bytes) (hs : tl2Supported d = true) (hv : wt2 d v = true)
+    (hp : encF d v ≠ []) : decE d (encF d v ++ rest) = some (v, rest) :=
+  (rt2_all d hs).fld v rest hv hp
+
+/-- … and a plain field that is omitted is exactly the default value the reader fills in for a clear presence bit. -/
+theorem tl2_absent_is_default (d : Desc) (v : Val) (hs : tl2Supported d = true) (hv : wt2 d v = true)
+    (ha : encF d v = []) : v = defaultV d :=
+  (rt2_all d hs).fdef v hv ha
+
+/-- every type the generator produced TL2 code for (table regenerated from /repo on this run) lies in the fragment -/
+theorem schema_tl2_supported :
+    SH.Gen.C14.tl2table.all (fun e => tl2Supported e.2 && !headIsBool e.2) = true := by decide
+
+/-- the TL2 round trip for every generated type that has TL2 -/
+theorem schema_tl2_roundtrip (name : String) (d : Desc) (hm : (name, d) ∈ SH.Gen.C14.tl2table)
+    (v : Val) (rest : Bytes) (hv : wt2 d v = true) : decE d (encE d v ++ rest) = some (v, rest) := by
+  have h := List.all_eq_true.1 schema_tl2_supported (name, d) hm
+  simp only [Bool.and_eq_true, Bool.not_eq_true'] at h
+  exact tl2_roundtrip d v rest h.1 h.2 hv
+
+/-! non-vacuity on generated descriptors: a statshouseApi.tagValue (mask, Bool, string, non-zero enum), and a
+    statshouseApi.query whose only non-default fields sit in the second and third block of slots (the first block
+    byte is 0, the body is cut right after the last presence byte) -/
+def exTagValue : Val :=
+  .recd (.cons (.nat 5) (.cons (.alt 1 (.recd .nil)) (.cons (.str [0x61]) (.cons (.alt 2 (.recd .nil)) .nil))))
+
+example : wt2 SH.Gen.C14.d_data_model_statshouseApi_tagValue exTagValue = true := by decide
+example : encE SH.Gen.C14.d_data_model_statshouseApi_tagValue exTagValue =
+    [11, 0x1e, 5, 0, 0, 0, 1, 1, 0x61, 2, 1, 2] := by decide
+example : decE SH.Gen.C14.d_data_model_statshouseApi_tagValue
+    (encE SH.Gen.C14.d_data_model_statshouseApi_tagValue exTagValue ++ [9]) = some (exTagValue, [9]) := by decide
+example : wt SH.Gen.C14.d_data_model_statshouseApi_tagValue [] exTagValue = true := by decide   -- the same value is TL1 well-typed
+
+def exQuery : Val :=
+  .recd (.cons (.nat 0) (.cons (.raw [0, 0, 0, 0]) (.cons (.raw [0, 0, 0, 0]) (.cons (.str [])
+    (.cons (.raw [0, 0, 0, 0, 0, 0, 0, 0]) (.cons (.raw [0, 0, 0, 0, 0, 0, 0, 0]) (.cons (.str [])
+    (.cons (.alt 0 (.recd .nil)) (.cons (.list (.cons (.str [0x61]) .nil)) (.cons (.list .nil) (.cons (.list .nil)
+    (.cons .none (.cons .none (.cons .none (.cons .none (.cons .none (.cons .none (.cons .none
+    (.cons (.recd .nil) .nil)))))))))))))))))))
+
+example : wt2 SH.Gen.C14.d_data_model_statshouseApi_query exQuery = true := by decide
+/-- size 7; block 0 empty; block 1: group_by (slot 9); the vector (size 3, one element "a"); block 2: max_host_flag (slot 19) -/
+example : encE SH.Gen.C14.d_data_model_statshouseApi_query exQuery = [7, 0, 2, 3, 1, 1, 0x61, 8] := by decide
+example : decE SH.Gen.C14.d_data_model_statshouseApi_query
+    (encE SH.Gen.C14.d_data_model_statshouseApi_query exQuery ++ [9]) = some (exQuery, [9]) := by decide
 
 /-! ### reused destinations
 
